@@ -3,6 +3,7 @@
    monitor, and the jitter state restarts. *)
 From Coq Require Import List Arith ZArith.
 From RV Require Import Val Syntax Rho Offline Online OnlineCorrect Reset Jitter ExtZ.
+From RV Require Dense DenseSem DenseMerge DenseMergeCorrect DenseOnlineMergeCorrect DenseOnlineMon DenseOnlineMonCorrect DenseOnlineReset DenseOnlineResetCorrect.
 Import ListNotations.
 
 Theorem C10_reset :
@@ -41,3 +42,85 @@ Example C10_nonvacuous :
   /\ snd (mon_run ExtZArith pk [p] (fst (mon_run ExtZArith pk [p] dict_init w 0 4)) w' 0 3)
   <> snd (mon_run ExtZArith pk [p] dict_init w' 0 3).
 Proof. cbv zeta. split; vm_compute; [reflexivity|discriminate]. Qed.
+
+(* ---------------------------------------------------------------------------------------------------------------- *)
+(* Dense time.  reset() of the dense-time online monitor builds every operation again (set_ast); [mon_reset] is that
+   code, [mon_init p] the initial state of the monitor model all dense online theorems (C05, C06) are about, [subs p]
+   the nodes the update visitor reaches, [supported p]: no operator the dense online visitor rejects.
+   After ANY history of updates on which the monitor did not raise, reset() returns, every operation of the formula is
+   in its constructor state, and the lists returned on ANY continuation are those of a fresh monitor. *)
+Theorem C10_dense_reset :
+  forall (VS : Val) (AR : Arith VS) (pk : formula -> formula -> pkind) (p : formula)
+         (hist : list (list Dense.dsig)) (st : DenseOnlineMon.dict) (outs : list DenseMerge.esig) (post : list (list Dense.dsig)),
+    hist <> [] \/ DenseOnlineReset.supported p = true ->
+    DenseOnlineMon.mon_run AR pk p (DenseOnlineMon.mon_init p) hist = Some (st, outs) ->
+    exists d, DenseOnlineReset.mon_reset p st = Some d /\
+      (forall a, In a (DenseOnlineMonCorrect.subs p) -> d a = DenseOnlineMon.mon_init p a) /\
+      option_map snd (DenseOnlineMon.mon_run AR pk p d post) =
+      option_map snd (DenseOnlineMon.mon_run AR pk p (DenseOnlineMon.mon_init p) post).
+Proof. exact @DenseOnlineResetCorrect.dense_reset_main. Qed.
+Print Assumptions C10_dense_reset.
+
+(* reset() before the first update is harmless *)
+Theorem C10_dense_reset_first :
+  forall (VS : Val) (AR : Arith VS) (pk : formula -> formula -> pkind) (p : formula) (post : list (list Dense.dsig)),
+    DenseOnlineReset.supported p = true ->
+    exists d, DenseOnlineReset.mon_reset p (DenseOnlineMon.mon_init p) = Some d /\
+      option_map snd (DenseOnlineMon.mon_run AR pk p d post) =
+      option_map snd (DenseOnlineMon.mon_run AR pk p (DenseOnlineMon.mon_init p) post).
+Proof. exact @DenseOnlineResetCorrect.dense_reset_first. Qed.
+Print Assumptions C10_dense_reset_first.
+
+(* what the reset monitor then computes (with C05, fragment [frag], standard predicates): the tick semantics rhoZ of the
+   CONTINUATION's signals W alone, from 0 to the last stamp returned, whatever the batches in which W is fed *)
+Theorem C10_dense_reset_correct :
+  forall (VS : Val) (AR : Arith VS) (pk : formula -> formula -> pkind),
+    (forall f g : formula, pk f g = PStd) -> (forall l r : V, neg (a2 AR Sub l r) = a2 AR Sub r l) ->
+    forall (p : formula) (hist : list (list Dense.dsig)) (st : DenseOnlineMon.dict) (outs : list DenseMerge.esig)
+           (W : list Dense.dsig) (tend : BinNums.Z) (post : list (list Dense.dsig)),
+    hist <> [] \/ DenseOnlineReset.supported p = true ->
+    DenseOnlineMon.mon_run AR pk p (DenseOnlineMon.mon_init p) hist = Some (st, outs) ->
+    DenseOnlineMonCorrect.frag p = true ->
+    (forall x, DenseOnlineMonCorrect.feedsI [] (map (fun env => nth x env []) post) (nth x W [])) ->
+    (forall x, DenseMergeCorrect.dsorted (nth x W [])) ->
+    (forall x, nth x W [] <> [] -> Dense.start (nth x W []) = BinNums.Z0) ->
+    exists d outs',
+      DenseOnlineReset.mon_reset p st = Some d /\
+      option_map snd (DenseOnlineMon.mon_run_fin AR pk p d post) = Some outs' /\
+      length outs' = length post /\
+      (forall t, concat outs' <> [] -> BinInt.Z.le BinNums.Z0 t /\ BinInt.Z.le t (DenseOnlineMergeCorrect.lastT (concat outs')) ->
+                 Dense.den_opt (concat outs') t = Some (DenseSem.rhoZ AR pk W tend p t)) /\
+      (forall x, In x (DenseOnlineMonCorrect.fvars p) ->
+                 BinInt.Z.le (DenseOnlineMergeCorrect.lastT (concat outs')) (DenseOnlineMergeCorrect.lastT (nth x W []))).
+Proof. exact @DenseOnlineResetCorrect.dense_reset_correct. Qed.
+Print Assumptions C10_dense_reset_correct.
+
+(* any sequence of update() and reset() calls on one object ([run_api]: segments of updates, a reset() between two
+   consecutive segments, set_ast at the first call) that raises nowhere and ends with reset() + a continuation: the lists
+   returned on the continuation are those of a fresh object ([run_fresh]: set_ast, then the continuation alone) *)
+Theorem C10_dense_reset_calls :
+  forall (VS : Val) (AR : Arith VS) (pk : formula -> formula -> pkind) (p : formula)
+         (segs : list (list (list Dense.dsig))) (post : list (list Dense.dsig)) (outs : list (list DenseMerge.esig)),
+    segs <> [] -> DenseOnlineReset.run_api AR pk p (segs ++ [post]) = Some outs ->
+    exists pre o, outs = pre ++ [o] /\ DenseOnlineReset.run_fresh AR pk p post = Some o.
+Proof. exact @DenseOnlineResetCorrect.run_api_last. Qed.
+Print Assumptions C10_dense_reset_calls.
+
+(* an operator the dense online monitor rejects: reset() raises, like the first (and every) update of a fresh object *)
+Theorem C10_dense_reset_unsupported :
+  forall (VS : Val) (AR : Arith VS) (pk : formula -> formula -> pkind) (p : formula) (st : DenseOnlineMon.dict),
+    DenseOnlineReset.supported p = false ->
+    DenseOnlineReset.mon_reset p st = None /\ DenseOnlineReset.mon_fresh p = None /\
+    forall d env, DenseOnlineMon.mon_update AR pk p d env = None.
+Proof. exact @DenseOnlineResetCorrect.reset_unsupported. Qed.
+Print Assumptions C10_dense_reset_unsupported.
+
+(* the reset() methods of the dense operation classes (all `pass`) and the reset visitor would NOT do: a monitor reset that way
+   goes on as if nothing had happened.  Not observable: the dense interpreter overrides reset() and never uses them. *)
+Theorem C10_dense_inherited_reset_is_no_reset :
+  forall (VS : Val) (AR : Arith VS) (pk : formula -> formula -> pkind) (p : formula) (d : DenseOnlineMon.dict)
+         (post : list (list Dense.dsig)),
+    option_map snd (DenseOnlineMon.mon_run AR pk p (DenseOnlineReset.mon_reset_inherited p d) post) =
+    option_map snd (DenseOnlineMon.mon_run AR pk p d post).
+Proof. exact @DenseOnlineResetCorrect.inherited_reset_is_no_reset. Qed.
+Print Assumptions C10_dense_inherited_reset_is_no_reset.
